@@ -17,8 +17,10 @@ ASPECT_THEOREMS = {
     "C03": ["ps_law_payload", "ps_law_payload_refuted", "ps_only_these_ranges_differ", "deb_law_payload", "deb_only_these_ranges_differ",
             "deb_law_payload2", "deb_slot_replaced"],
     "C02": ["ps_protect", "ps_protect_trailing_refuted", "ps_protect_separator_refuted",
+            "ps_write_utf16_model", "ps_utf16_encode_injective", "ps_conv_injective", "ps_utf16_char_change", "ps_utf16_pass_identity",
             "deb_protect", "deb_check_sound", "deb_check_order_refuted", "deb_check_shadow_refuted"],
-    "C05": ["ps_hashin_eq_spec", "ps_text_conversion_spec", "ps_embed_eq_spec", "deb_hashin_eq_spec", "deb_embed_eq_spec"],
+    "C05": ["ps_w16_rune_is_spec", "ps_w16_rune_surrogates", "ps_utf16_is_spec", "ps_to_utf16_model", "ps_bom_is_spec",
+            "ps_hashin_eq_spec", "ps_text_conversion_spec", "ps_embed_eq_spec", "deb_hashin_eq_spec", "deb_embed_eq_spec"],
 }
 ASPECTS = ("C01", "C02", "C03", "C05", "C08")
 
@@ -811,10 +813,17 @@ def body(ctx, replay=None):
                     if bool(ssf) != rdp["signed"]:
                         bad("ps:spec-signed", slim)
             elif kind == "text":
-                u8, u16, go16 = mv
+                u8, u16, go16 = mv[:3]
                 s = "".join(chr(x) for x in c["cps"])
                 if u8 != s.encode("utf-8").hex() or u16 != s.encode("utf-16-le").hex() or go16 != u16 or u8 != c["file"]:
                     bad("ps:text-encoders", {"kind": "text", "cps": c["cps"]})
+                # the encoder generated from writeUtf16 / toUtf16, the Unicode-standard function, the pass-through path
+                w16, t16, uni, pas = mv[3:7]
+                if w16 != s.encode("utf-16-le").hex() or t16 != w16 or uni != w16 or pas != u8:
+                    bad("ps:text-generated-encoder", {"kind": "text", "cps": c["cps"]}, [w16, t16, uni, pas])
+                # the real imprint is the digest of what the generated encoder emits
+                if hashlib.sha256(bytes.fromhex(w16)).hexdigest() != c["sha"]:
+                    bad("ps:text-generated-encoder-ne-real-digest", {"kind": "text", "cps": c["cps"]}, [w16, c["sha"]])
             elif kind == "deb":
                 r = c["rounds"][k]
                 slim = {"kind": "deb", "id": c["id"], "cls": c["cls"], "file": cur if len(cur) < 8000 else cur[:8000] + "...", "role": r["role"], "round": k}
